@@ -226,6 +226,13 @@ def handle (line : String) : String :=
           cpsStr (Spec.specText tables fd c) ++ "|" ++ ratToString (Spec.specWidth tables fd c)
         else "?"))
     | none => "bad-op"
+  | ["tab.facts"] =>
+    -- the table facts the theorems assume (`TablesOK`), evaluated on the regenerated data
+    let a := glyphs.all (fun e => !e.2.isEmpty)
+    let b := rows.all (fun r => (name2unicode glyphs (some r.1)).isSome)
+    let c := rows.all (fun r => Spec.judgedName glyphs (some r.1))
+    let d := (glLookup glyphs []).isNone
+    s!"glyph-values-nonempty={a} rows-resolve={b} rows-judged={c} empty-name-absent={d}"
   | ["tab.glyphcount"] => toString glyphs.length
   | ["tab.enccount"] => toString rows.length
   | ["tab.metrics", a] =>
